@@ -4,6 +4,6 @@ Require Import IP.Base.Bytes IP.Base.GoSem IP.DM.Value IP.Gen.FromGo
 Require Extraction.
 Require Import ExtrOcamlBasic.
 Extraction Language OCaml.
-Extraction "model.ml" compile walk_adv walk_matching cwalk_adv no_ctl
+Extraction "model.ml" compile walk_adv walk_matching cwalk_adv no_ctl pinned repaired
   get step_deref step deref parse_path format_path seg_string seg_index seg_equals lookup_seg
   f64_is_nan dm_eqb interests explore match_sel.
